@@ -572,6 +572,8 @@ theorem queryLive_pure2 (f : File) (i : Nat) (q : Query) {o o' : Obj} (es : o'.s
     · simp only [hs]; exact evalTop_pure2 f i _ h h' hr
   | duration => exact seq2_pure2 (evalTop_pure2 f i _) (evalTop_pure2 f i _) h h' hr
   | numFrames => exact numFrames_pure2 f i h h' hr
+  | rgb =>
+    exact seq2_pure2 (seq2_pure2 (evalTop_pure2 f i _) (evalTop_pure2 f i _)) (evalTop_pure2 f i _) h h' hr
 
 /-- **A query never changes a skeleton, and its answer does not depend on memo tables.** -/
 theorem query_pure2 (f : File) (i : Nat) (q : Query) : Pure2 f (fun h => query f h i q) := by
@@ -1413,6 +1415,9 @@ theorem queryLive_pure2p (f : File) (j : Nat) (q : Query) {o o2 : Obj} (es : o2.
     | false => exact (evalTop_pure2p f j _ h h2 hG hG2 hp hj).1
   | duration => exact (seq2_pure2p (evalTop_pure2p f j _) (evalTop_pure2p f j _) h h2 hG hG2 hp hj).1
   | numFrames => exact (numFrames_pure2p f j h h2 hG hG2 hp hj).1
+  | rgb =>
+    exact (seq2_pure2p (seq2_pure2p (evalTop_pure2p f j _) (evalTop_pure2p f j _)) (evalTop_pure2p f j _)
+      h h2 hG hG2 hp hj).1
 
 theorem query_pre (f : File) (j : Nat) (q : Query) (h h2 : Heap) (hG : Good f h) (hG2 : Good f h2) (hp : Pre h h2)
     (hj : ∃ o, h[j]? = some o) : (query f h2 j q).2 = (query f h j q).2 := by
